@@ -1,6 +1,6 @@
 /-
-  C10 (d), auxiliary: in a history in which no body raises, of a configuration without window, timeout or forever
-  job, nothing ever fails: no cancellation is ever requested, no task ends cancelled or with an exception, every run
+  C10 (d), auxiliary: in a history in which no body raises and no orchestration fails (no `orchFail` event), of a
+  configuration without window, timeout or forever job, nothing ever fails: no cancellation is ever requested, no task ends cancelled or with an exception, every run
   leaves its main loop for reason `success` (`Clean`, `clean_reach`).  Used by `Proofs/FlatB.lean`.
   Core Lean only.
 -/
@@ -96,9 +96,9 @@ structure Clean (c : Cfg) (st : StB) : Prop where
 theorem clean_init (c : Cfg) : Clean c StB.init := by
   constructor <;> intros <;> simp_all [StB.init, StA.init, PcB.exitOf, Ph.isDone]
 
-/-- in a clean state a run leaves its main loop only when all its jobs are done -/
+/-- in a clean state a run leaves its main loop only when all its jobs are done (unless its orchestration fails) -/
 theorem clean_leave (c : Cfg) (hplain : Plain c) (st st' : StB) (e : EvB)
-    (hA : InvA c st.a) (hB : InvB c st) (hC : Clean c st) (h : stepB c st e = some st')
+    (hA : InvA c st.a) (hB : InvB c st) (hC : Clean c st) (hnf : ∀ s', e ≠ .orchFail s') (h : stepB c st e = some st')
     (s : Nat) (hl : st.pcB s = .loop) (hleft : st'.pcB s ≠ .loop) :
     st'.pcB s = .tidy .success ∧ ∀ k ∈ c.children s, (st.a.ph k).isDone = true := by
   obtain ⟨x, hx, _, _, _, _, _, _, _, hr⟩ := loop_exit c st st' e s hB h hl hleft
@@ -127,12 +127,13 @@ theorem clean_leave (c : Cfg) (hplain : Plain c) (st st' : StB) (e : EvB)
       have := hC.noCreq s
       rw [hg.2.2.2.2.1] at this; cases this
     · cases h
+  | crashed => exact absurd hr.1 (hnf s)
 
 theorem clean_step (c : Cfg) (hwf : c.wf = true) (hplain : Plain c) (st st' : StB) (e : EvB)
     (hA : InvA c st.a) (hB : InvB c st) (hE : ExitInv c st) (hC : Clean c st)
-    (hok : ∀ j, e ≠ .bodyEnd j false) (h : stepB c st e = some st') : Clean c st' := by
+    (hok : ∀ j, e ≠ .bodyEnd j false) (hnf : ∀ s, e ≠ .orchFail s) (h : stepB c st e = some st') : Clean c st' := by
   have hB' := invB_step c hwf st st' e hA hB h
-  have hleave := clean_leave c hplain st st' e hA hB hC h
+  have hleave := clean_leave c hplain st st' e hA hB hC hnf h
   obtain ⟨f1, _, _, _⟩ := step_facts c st st' e h
   have hcreq : ∀ k, st'.a.creq k = false := by
     intro k
@@ -193,10 +194,11 @@ theorem clean_step (c : Cfg) (hwf : c.wf = true) (hplain : Plain c) (st st' : St
       have := ((hE.successMeans s q0).1 k hk (hplain k (CoreB.mem_children.1 hk).1).2.2).1
       rw [q2]; simp only [setAt, if_neg hks]; exact this
 
-/-- `InvA`, `InvB`, `ExitInv` and `Clean` are carried along a history of a plain configuration in which no body raises -/
+/-- `InvA`, `InvB`, `ExitInv` and `Clean` are carried along a history of a plain configuration in which no body raises
+    and no orchestration fails -/
 theorem clean_accept (c : Cfg) (hwf : c.wf = true) (hplain : Plain c) (evs : List EvB) (st0 st : StB)
     (hA : InvA c st0.a) (hB : InvB c st0) (hE : ExitInv c st0) (hC : Clean c st0)
-    (hok : ∀ j ok, EvB.bodyEnd j ok ∈ evs → ok = true)
+    (hok : ∀ j ok, EvB.bodyEnd j ok ∈ evs → ok = true) (hnf : ∀ s, EvB.orchFail s ∉ evs)
     (h : acceptB c st0 evs = some st) : Clean c st := by
   induction evs generalizing st0 with
   | nil => simp only [acceptB] at h; cases h; exact hC
@@ -207,17 +209,19 @@ theorem clean_accept (c : Cfg) (hwf : c.wf = true) (hplain : Plain c) (evs : Lis
       have hB1 := invB_step c hwf st0 st1 e hA hB hs
       have hE1 := exitInv_step c hwf st0 st1 e hA hB hE hs
       have hC1 := clean_step c hwf hplain st0 st1 e hA hB hE hC
-        (fun j he => by have := hok j false (by rw [he]; exact List.mem_cons_self); cases this) hs
+        (fun j he => by have := hok j false (by rw [he]; exact List.mem_cons_self); cases this)
+        (fun s he => hnf s (by rw [he]; exact List.mem_cons_self)) hs
       have hA1 : InvA c st1.a := by
         rcases stepB_refines c st0 st1 e hs with heq | ⟨ea, hea⟩
         · rw [heq]; exact hA
         · exact invA_step c hwf st0.a st1.a ea hA hea
-      exact ih st1 hA1 hB1 hE1 hC1 (fun j ok hm => hok j ok (List.mem_cons_of_mem _ hm)) h
+      exact ih st1 hA1 hB1 hE1 hC1 (fun j ok hm => hok j ok (List.mem_cons_of_mem _ hm))
+        (fun s hm => hnf s (List.mem_cons_of_mem _ hm)) h
     · cases h
 
 theorem clean_reach (c : Cfg) (hwf : c.wf = true) (hplain : Plain c) (evs : List EvB) (st : StB)
-    (hok : ∀ j ok, EvB.bodyEnd j ok ∈ evs → ok = true)
+    (hok : ∀ j ok, EvB.bodyEnd j ok ∈ evs → ok = true) (hnf : ∀ s, EvB.orchFail s ∉ evs)
     (h : acceptB c StB.init evs = some st) : Clean c st :=
-  clean_accept c hwf hplain evs StB.init st (invA_init c) (invB_init c) (exitInv_init c) (clean_init c) hok h
+  clean_accept c hwf hplain evs StB.init st (invA_init c) (invB_init c) (exitInv_init c) (clean_init c) hok hnf h
 
 end AJ.Proofs.FlatB
